@@ -66,7 +66,7 @@ def gen_case(rng, tier, i):
             switches.append([t, rng.choice(["log", "warn", "pause"])])
     cuts = sorted(rng.sample(range(0, 60), 3))
     return {"prog": prog, "faults": fl, "strategy": strategy, "driver": driver, "cuts": cuts, "nsteps": rng.randint(1, 6),
-            "switches": switches}
+            "switches": switches, "strategy_call": rng.choice(["plain", "plain", "level_kw", "level_pos"])}
 
 
 def shard_setup(tier, ctx):
@@ -100,6 +100,7 @@ def run_case(case, ctx):
     from vlib.refdevs import Ref, WARMUP
     prog = _with_faults(case["prog"], case["faults"], case.get("switches", ()))
     prog["strategy"] = case["strategy"]
+    prog["strategy_call"] = case.get("strategy_call", "plain")
     where = {"clock": prog["clock"], "strategy": case["strategy"], "driver": case["driver"], "faults": case["faults"]}
     ref = Ref(prog)
     ref.initialize()
